@@ -809,6 +809,7 @@ def _canon_ref(r, depth=0):
         if kd == z3.Z3_OP_SELECT:
             a, i = r.arg(0), r.arg(1)
             if z3.is_int(i): return _canon_arr(a, depth + 1) + '[_]'
+            if i.sort() != Ref: return _canon_arr(a, depth + 1) + '.*'          # map lookup by a string/int key: the key is not part of the signature
             return _canon_arr(a, depth + 1) + '.' + _canon_ref(i, depth + 1)
         if kd == z3.Z3_OP_ITE: return _canon_ref(r.arg(1), depth + 1)
     return '_'
